@@ -61,6 +61,12 @@ async fn pre(p: Pre) {
         Pre::None => {}
         Pre::Yield => tokio::task::yield_now().await,
         Pre::Sleep(ms) => tokio::time::sleep(Duration::from_millis(ms)).await,
+        Pre::Coop(n) => {
+            tokio::task::yield_now().await;
+            for _ in 0..n {
+                tokio::task::coop::consume_budget().await;
+            }
+        }
     }
 }
 
